@@ -16,6 +16,7 @@ package diode
 //@   props C10 C06
 //@   arith int
 //@   flag replay diode_copy
+//@   flag copies p
 //@   requires dw.d != nil && !poolowned(p)
 //@   ensures n == len(p) && err == nil
 //@   ensures ncalls(diodeFetcher.Set) == old(ncalls(diodeFetcher.Set)) + 1
